@@ -248,6 +248,12 @@ def crash_key(rr, cmd="", case=None):
     if toks and toks[0] == "WR" and len(toks) >= 4 and toks[-2] in ("MAX", "MIN") and \
             "signed integer overflow" in err and "emboss_arithmetic.h" in err:
         return "ubsan:virtual-field-CouldWriteValue-extreme-argument"
+    null_field = case is not None and case.prepared is not None and \
+        "NullByteOrderer" in (case.prepared.header or "")
+    if rr.kind == "check-failed" and null_field and "(SizeInBytes() * 8) == (kBits)" in err:
+        # the same NullByteOrderer defect seen through a *checked* read: BitBlock::Ok() holds over an
+        # empty window and ContiguousBuffer::Read…UInt's own size check trips
+        return "asan:heap-buffer-overflow:NullByteOrderer-truncated-one-byte-field"
     if rr.kind == "check-failed":
         import re
         m = re.search(r"EMBOSS-CHECK-FAILED (\w+) \S*?([\w.]+):(\d+)", err)
@@ -259,8 +265,6 @@ def crash_key(rr, cmd="", case=None):
         what = m.group(1) if m else "?"
         # optimised builds inline the orderer's frames away: fall back on "the module has a field
         # with the Null byte order and the report is a 1-byte read past the heap buffer"
-        null_field = case is not None and case.prepared is not None and \
-            "NullByteOrderer" in (case.prepared.header or "")
         if "NullByteOrderer" in err or (null_field and what == "heap-buffer-overflow" and
                                         "READ of size 1" in err):
             return "asan:%s:NullByteOrderer-truncated-one-byte-field" % what
